@@ -18,7 +18,9 @@ step (`Step.enter`: `owner.with(|| observer.with_observer(|| ..))`, the way the 
 AsyncDerived runs and RE-RUNS its fetcher and the way an isomorphic effect runs its body).  Code that is only inside
 `Sandboxed` (`reactive_graph::spawn` bodies, streams chained into the response body) gets the weaker
 `C20_sandboxed_arena`: its arena is its own although its owner is not.  Witnesses for dropping either wrapper:
-`C20_unguarded_rerun_witness`, `C20_unsandboxed_stream_witness`.
+`C20_unguarded_rerun_witness`, `C20_unsandboxed_stream_witness`; for a "the owner is already current" shortcut in
+`ScopedFuture::poll`: `C20_owner_current_witness` (the positive statement is `C20_owner_already_current`); for a response
+assembly that looks its shared context up late (async rendering mode): `C20_assembly_witness`.
 
 Quantifiers: all worlds (owner forests of any number of requests, global or per-request arenas), all
 task programs (`List Step`, spawn tables), all interleavings (`List Nat`).
@@ -1338,5 +1340,70 @@ example :
       = (run (demoWorld false) (view (demoWorld false) 0 (demoState2 false)) [1, 0, 1, 0]).mem.log ∧
     (run (demoWorld false) (view (demoWorld false) 0 (demoState2 false)) [1, 0, 1, 0]).mem.log.length = 5 := by
   decide
+
+/-! ## "the owner is already current" and the response assembly -/
+
+/-- **C20_owner_already_current.**  A wrapped task (`ScopedFuture`) re-installs owner AND arena on every poll,
+whatever the thread-locals hold — in particular when its captured owner already IS the thread's current owner
+(the request's root, left set by `Owner::new_root`) while the arena is the one another request left selected,
+and whether or not the poll is inside `Sandboxed`: every observation of the poll is `ObsOk` (own owner, that
+owner's arena, own context).  (`Owner::with` has no "already current" shortcut: the shortcut would skip
+`Arena::set`; `C20_owner_current_witness` is that shortcut.) -/
+theorem C20_owner_already_current {w : World} (hw : w.WF) (s : State) (i : Nat) (t : Task)
+    (hi : s.tasks[i]? = some t) (ht : WrappedOk w t)
+    (_hcur : s.amb.owner = t.captured.owner) :
+    NewOk w s.mem.log (pollTask w s i).mem.log := by
+  obtain ⟨m1, sp, rest, hrun, _, _, _, h7⟩ := poll_core hw t (.inl ht) s.mem
+  obtain ⟨a1, h1, _⟩ := hrun s.amb
+  have : (pollTask w s i).mem = m1 := by simp [pollTask, hi, h1]
+  rw [this]; exact h7
+
+/-- request 0 is the last one started (its root 0 is the thread's owner); request 1's sandboxed code ran last
+(arena 1 is selected).  Task 0 = a `ScopedFuture` of request 0 created under its root, polled by the handler
+side OUTSIDE `Sandboxed`; `fast` = it is treated as not needing `Owner::with` because its owner is current -/
+def ownerCurrentState (fast : Bool) : State :=
+  { amb := { owner := some 0, arena := some 1 }
+    mem := { ctx := [⟨0, 100⟩, ⟨1, 200⟩] }
+    tasks := [{ req := 0, captured := { owner := some 0, arena := some 0 }, wrapped := !fast, sandboxed := false,
+                steps := [.simple (.readCtx 1), .simple .alloc] }] }
+
+/-- **C20_owner_current_witness.**  With the shortcut the owner and the context are right but the arena is request
+1's: the handle reads and the allocation go to the other request.  Without it (the code) everything is its own. -/
+theorem C20_owner_current_witness :
+    ((run leakWorld (ownerCurrentState true) [0]).mem.log.map fun ob => (ob.owner, ob.arena, ob.ctx.map (·.val)))
+      = [(some 0, some 1, some 100)] ∧
+    (run leakWorld (ownerCurrentState true) [0]).mem.items = [⟨some 1, some 0⟩] ∧
+    ((run leakWorld (ownerCurrentState false) [0]).mem.log.map fun ob => (ob.owner, ob.arena, ob.ctx.map (·.val)))
+      = [(some 0, some 0, some 100)] ∧
+    (run leakWorld (ownerCurrentState false) [0]).mem.items = [⟨some 0, some 0⟩] ∧
+    tasksOkB leakWorld (ownerCurrentState false) = true := by
+  decide
+
+/-- the response assembly of request 0 in ASYNC rendering mode: the hydration chunks are requested (task 1) after
+request 1's handler made its own root the thread's owner (task 0).  A request's `SsrSharedContext` hangs on its
+root owner (`Owner::shared_context`, inherited by children), so "whose hydration data" = "whose owner".
+`captured` = the `chunks` closure uses the shared context `build_response` captured under the request's root
+(the code: a step entered under root 0); `false` = it asks `Owner::current_shared_context()` when called -/
+def assemblyState (captured : Bool) : State :=
+  { amb := { owner := some 0, arena := some 0 }
+    tasks := [
+      { req := 1, captured := {}, wrapped := false, sandboxed := false, steps := [.setRoot 1] },
+      { req := 0, captured := { arena := some 0 }, wrapped := false, sandboxed := true,
+        steps := if captured then [.enter 0 none [.readAmb 7]] else [.simple (.readAmb 7)] } ] }
+
+/-- **C20_assembly_witness.**  Looked up late, the response of request 0 is assembled from request 1's shared
+context as soon as request 1 started in between; captured, it is its own in every interleaving. -/
+theorem C20_assembly_witness :
+    (run leakWorld (assemblyState false) [0, 1]).mem.log.map (fun ob => (ob.req, ob.owner)) = [(0, some 1)] ∧
+    (run leakWorld (assemblyState false) [1, 0]).mem.log.map (fun ob => (ob.req, ob.owner)) = [(0, some 0)] ∧
+    (run leakWorld (assemblyState true) [0, 1]).mem.log.map (fun ob => (ob.req, ob.owner)) = [(0, some 0)] ∧
+    (run leakWorld (assemblyState true) [1, 0]).mem.log.map (fun ob => (ob.req, ob.owner)) = [(0, some 0)] ∧
+    ((assemblyState true).tasks.map (taskOkB leakWorld)) = [false, true] := by
+  decide
+
+/-- non-vacuity of `C20_owner_already_current`: its hypotheses hold in `ownerCurrentState false` -/
+example : ∃ t, (ownerCurrentState false).tasks[0]? = some t ∧ WrappedOk leakWorld t ∧
+    (ownerCurrentState false).amb.owner = t.captured.owner ∧ (ownerCurrentState false).amb.arena ≠ t.captured.arena := by
+  refine ⟨_, rfl, (wrappedOkB_iff _ _).mp (by decide), rfl, by decide⟩
 
 end Leptos.Ambient
